@@ -174,11 +174,14 @@ func main() {
 		}
 		workers[i] = &worker{id: i, eng: eng, m: m, solver: s}
 	}
-	defer func() {
+	cleanup := func() {
 		for _, w := range workers {
 			w.solver.Close()
 		}
-	}()
+		if replayBin != "" {
+			os.Remove(replayBin)
+		}
+	}
 
 	type hres struct {
 		Func         string         `json:"func"`
@@ -326,6 +329,7 @@ func main() {
 		fmt.Printf("OK property=%s tier=%s paths=%d obligations=%d discharged=%d inconclusive=%d wall=%.1fs\n",
 			cfg.Property, *tier, eng.stats.Paths, eng.stats.Obligations, eng.stats.Discharged, eng.stats.Inconclusive, time.Since(t0).Seconds())
 	}
+	cleanup()
 	os.Exit(exitCode)
 }
 
@@ -347,8 +351,14 @@ func goEnv() []string {
 	return env
 }
 
-// replayNative runs the harness natively on the stored inputs inside /repo's real package.
-func replayNative(cfg *HarnessConfig, verifRoot, replayPath string, harnessFuncs []string) (bool, string) {
+// replayBinary builds (once) the package's test binary with the harness overlay.
+var replayBin string
+var replayBuildErr string
+
+func buildReplayBinary(cfg *HarnessConfig, verifRoot string, harnessFuncs []string) {
+	if replayBin != "" || replayBuildErr != "" {
+		return
+	}
 	ov, testFile := overlayFor(cfg, verifRoot, true, harnessFuncs)
 	defer os.Remove(testFile)
 	type ovJSON struct {
@@ -358,8 +368,32 @@ func replayNative(cfg *HarnessConfig, verifRoot, replayPath string, harnessFuncs
 	json.NewEncoder(ovf).Encode(ovJSON{Replace: ov})
 	ovf.Close()
 	defer os.Remove(ovf.Name())
-	cmd := exec.Command("go", "test", "-vet=off", "-count=1", "-overlay", ovf.Name(), "-run", "^TestVerifReplay$", "-timeout", "300s", "./"+cfg.Dir+"/")
+	binf, _ := os.CreateTemp("", "verif_replay_*.test")
+	binf.Close()
+	cmd := exec.Command("go", "test", "-c", "-vet=off", "-overlay", ovf.Name(), "-o", binf.Name(), "./"+cfg.Dir+"/")
 	cmd.Dir = repoRoot
+	cmd.Env = goEnv()
+	out, err := cmd.CombinedOutput()
+	if err != nil {
+		s := string(out)
+		if len(s) > 2000 {
+			s = s[len(s)-2000:]
+		}
+		replayBuildErr = "replay build failed: " + s
+		os.Remove(binf.Name())
+		return
+	}
+	replayBin = binf.Name()
+}
+
+// replayNative runs the harness natively on the stored inputs inside /repo's real package.
+func replayNative(cfg *HarnessConfig, verifRoot, replayPath string, harnessFuncs []string) (bool, string) {
+	buildReplayBinary(cfg, verifRoot, harnessFuncs)
+	if replayBuildErr != "" {
+		return false, replayBuildErr
+	}
+	cmd := exec.Command(replayBin, "-test.run", "^TestVerifReplay$", "-test.timeout", "300s")
+	cmd.Dir = filepath.Join(repoRoot, cfg.Dir)
 	cmd.Env = append(goEnv(), "VERIF_REPLAY="+replayPath)
 	out, _ := cmd.CombinedOutput()
 	s := string(out)
@@ -382,6 +416,8 @@ func replayNative(cfg *HarnessConfig, verifRoot, replayPath string, harnessFuncs
 				return false, "different outcome natively: " + res
 			case strings.HasPrefix(res, "ok"):
 				return false, "harness passed natively"
+			default:
+				return false, res
 			}
 		}
 	}
